@@ -558,7 +558,7 @@ class EnumType(DataType):
 
     def compatible(self, other):
         for m in self._enum.members:
-            other(m)
+            other.validate(m)
 
 
 class BLOBType(DataType):
@@ -749,8 +749,8 @@ class BoolType(DataType):
         return repr(value)
 
     def compatible(self, other):
-        other(False)
-        other(True)
+        other.validate(False)
+        other.validate(True)
 
 
 Stub.fix_datatypes()
